@@ -14,9 +14,9 @@ import (
 // × partitions over two upstream streams. Oracle: output(batching) == output(single batch).
 
 type c06Cmd struct {
-	Text    string
-	Order   string // keep = preserves input order; set = output order undefined (compare as multiset); sorts = defines order by unique key
-	Stateful bool  // keeps cross-batch state
+	Text     string
+	Order    string // keep = preserves input order; set = output order undefined (compare as multiset); sorts = defines order by unique key
+	Stateful bool   // keeps cross-batch state
 }
 
 var c06Cmds = []c06Cmd{
